@@ -114,7 +114,7 @@ class Sym:
                         guards.append(mknot(c))
                         return walk(st.orelse)
                     if isinstance(st, (ast.For, ast.While)):
-                        self._mark_loop_mutations(st, env)
+                        self._mark_loop_mutations(st, env, inside=True)
                         if isinstance(st, ast.For):
                             it = self.expr(st.iter, env, 0)
                             bv = ("bv", self._fresh())
@@ -382,7 +382,7 @@ class Sym:
 
     MUTATORS = ("append", "extend", "insert", "update", "add", "pop", "remove", "setdefault", "clear", "popitem", "discard", "sort", "reverse")
 
-    def _mark_loop_mutations(self, loop, env):
+    def _mark_loop_mutations(self, loop, env, inside=False):
         """names whose value is carried around the loop: assigned, augmented, stored into, or mutated through a method"""
         q = self.fi.qual
         filled = set()
@@ -406,8 +406,10 @@ class Sym:
             cur = env.get(d)
             if cur is None:
                 continue
-            if cur[0] not in ("loop", "filled"):
-                env[d] = ("filled", cur)
+            if not inside:
+                env[d] = ("loop", d, q)          # after a loop that is not understood the contents are unknown
+            elif cur[0] not in ("loop", "filled"):
+                env[d] = ("filled", cur)         # inside the loop the object keeps its identity
 
     def _terminates(self, stmts):
         return bool(stmts) and isinstance(stmts[-1], (ast.Return, ast.Raise, ast.Continue, ast.Break))
